@@ -179,6 +179,79 @@ Definition multi_run (v : variant) (srcs : list (list rd * bool)) (mode : mmode)
   (bs, e, close_counts m1, close_counts (Nat.iter k multi_close m1)).
 
 (* ------------------------------------------------------------------------------------- *)
+(* MultiReaderCloser under ANY use: every sequence of Read and WriteTo calls, with a destination
+   that may fail                                                                           *)
+
+(* io.CopyBuffer(dst, r, buf) when dst accepts [b] more Write calls ([None] = never fails):
+   "nr > 0 -> Write FIRST, then look at the read error"; a refused Write ends the copy with the
+   writer's error and the chunk just read is lost.  Returns what was written, how the copy ended,
+   the source and the destination's remaining budget. *)
+Fixpoint copy_to (fuel : nat) (c : consumer) (b : option nat) (r : reader) (acc : list N)
+  : list N * option err * reader * option nat :=
+  match fuel with
+  | O => (acc, None, r, b)
+  | S fuel' =>
+      let '(want, c') := next_size c in
+      let '(bs, e, r') := read want r in
+      match bs, b with
+      | _ :: _, Some O => (acc, Some EWriter, r', b)
+      | _, _ =>
+          let b' := match bs, b with _ :: _, Some (S k) => Some k | _, _ => b end in
+          match e with
+          | ENil => copy_to fuel' c' b' r' (acc ++ bs)
+          | _ => (acc ++ bs, Some e, r', b')
+          end
+      end
+  end.
+
+(* writeToWithBuffer on the current tree with such a destination: a source whose copy ends with
+   an error - its own or the destination's - stays at the head of the list with its successors
+   ("permit resume / retry after error"). *)
+Fixpoint multi_wt_loop (c : consumer) (b : option nat) (rs gone : list src) (acc : list N)
+  : list N * err * multi :=
+  match rs with
+  | [] => (acc, EEOF, {| mreaders := []; mgone := gone |})
+  | r :: rest =>
+      let '(bs, e, rd', b') :=
+        copy_to (S (script_fuel (script (sreader r)))) c b (sreader r) [] in
+      let r' := {| sreader := rd'; closable := closable r |} in
+      match e with
+      | Some EEOF => multi_wt_loop c b' rest (gone ++ [close_src r']) (acc ++ bs)
+      | Some e' => (acc ++ bs, e', {| mreaders := r' :: rest; mgone := gone |})
+      | None => (acc ++ bs, EFail FPlain, {| mreaders := r' :: rest; mgone := gone |})
+      end
+  end.
+
+(* One call on the wrapper. *)
+Inductive mop :=
+| ORead (want : nat)                          (* Read(p), len(p) = want (0 allowed) *)
+| OWriteTo (c : consumer) (b : option nat).   (* WriteTo(dst): copies read with sizes c, dst
+                                                 accepts b more writes *)
+
+Definition multi_op (op : mop) (m : multi) : list N * err * multi :=
+  match op with
+  | ORead want => multi_read want m
+  | OWriteTo c b => multi_wt_loop c b (mreaders m) (mgone m) []
+  end.
+
+(* Any sequence of calls, whatever they return (the caller may go on after an error); what each
+   call delivered / reported, and the final state. *)
+Fixpoint multi_ops (ops : list mop) (m : multi) : list (list N * err) * multi :=
+  match ops with
+  | [] => ([], m)
+  | op :: t =>
+      let '(bs, e, m') := multi_op op m in
+      let '(outs, m'') := multi_ops t m' in
+      ((bs, e) :: outs, m'')
+  end.
+
+(* ... then [k] calls of Close: (per-call results, closes before Close, closes after). *)
+Definition multi_use (srcs : list (list rd * bool)) (ops : list mop) (k : nat)
+  : list (list N * err) * list nat * list nat :=
+  let '(outs, m1) := multi_ops ops (multi_new srcs) in
+  (outs, close_counts m1, close_counts (Nat.iter k multi_close m1)).
+
+(* ------------------------------------------------------------------------------------- *)
 (* TeeReadCloser                                                                           *)
 
 (* The writer accepts [wbudget] more writes ([None] = never fails); a failing write accepts no
